@@ -18,6 +18,7 @@ kind stream, every op result (as file indices of the atoms handed out) and the G
 import os
 
 from .. import sysgen as G
+from .. import grogen as GG
 from .. import common
 
 RULE = ("files: 1..400 residues of size 1..12, with/without velocities, residue numbering sequential from a "
@@ -270,6 +271,19 @@ def _collision_boundaries(atoms):
     return out
 
 
+def _handle_of(s):
+    """the GroFile a SystemGro reads through (`_open_fgro` today): found by TYPE among its attributes, so that a rename
+    costs nothing"""
+    from gaddlemaps.parsers import GroFile
+    v = s.__dict__.get("_open_fgro")
+    if isinstance(v, GroFile):
+        return v
+    for v in s.__dict__.values():
+        if isinstance(v, GroFile):
+            return v
+    raise AttributeError("no GroFile handle on the SystemGro")
+
+
 def evaluate(ctx, case):
     from gaddlemaps.components import SystemGro
     import numpy as np
@@ -313,7 +327,7 @@ def evaluate(ctx, case):
         return
     impl = {}
     try:
-        fobj = s._open_fgro
+        fobj = _handle_of(s)
         impl["templates"] = [G.residue_tuples(r) for r in s.different_molecules]
         impl["pk"] = sorted(tuple(k) + (int(v),) for k, v in s._molecules_pk.items())
         mo = list(s._molecules_ordered)
@@ -322,7 +336,7 @@ def evaluate(ctx, case):
         impl["kinds"] = [int(x) for x in s.molecules_info_ordered_all]
 
         def cursor():
-            off = fobj._file.tell() - raw["init"]
+            off = GG.gfile(fobj).tell() - raw["init"]
             ls = raw["linesize"]
             if off <= len(atoms) * ls and off % ls == 0:
                 pos = off // ls
@@ -330,7 +344,7 @@ def evaluate(ctx, case):
                 pos = len(atoms) + 1
             else:
                 pos = -1
-            return (pos, int(fobj._current_atom))
+            return (pos, int(GG.priv(fobj, "_current_atom")))
         cursor()
         internals = True
     except (AttributeError, TypeError, IndexError, KeyError, ValueError) as e:
@@ -425,14 +439,14 @@ def evaluate(ctx, case):
                 results.append(("T", str(s), cursor()))
                 continue
             elif op[0] == "ps":
-                s._open_fgro.seek_atom(int(op[1]))
+                _handle_of(s).seek_atom(int(op[1]))
                 results.append(("U", None, cursor()))
                 continue
             elif op[0] == "pn":
-                results.append(("A", G.atom_tuple_of_line(next(s._open_fgro)), cursor()))
+                results.append(("A", G.atom_tuple_of_line(next(_handle_of(s))), cursor()))
                 continue
             elif op[0] == "pr":
-                s._open_fgro.readline(parsed=False)
+                _handle_of(s).readline(parsed=False)
                 results.append(("U", None, cursor()))
                 continue
             else:
